@@ -123,13 +123,15 @@ PROPS = {
                    "leaving opened(frame body) as the buffered plaintext; poll_read appends the first min(remaining, |p|) bytes of that "
                    "plaintext to the caller's buffer and keeps the rest. lemma_frame_roundtrip: if the undecoded input starts with the frame "
                    "the writer built for p (paired cipher states), the reader consumes exactly that frame, hands out p and leaves the "
-                   "following input untouched.",
+                   "following input untouched. lemma_stream_roundtrip (induction over that step): ANY k successive reader steps on the wire "
+                   "image of payloads p_0..p_m hand out p_0..p_{k-1} in order, nothing lost, duplicated or altered, and leave exactly the wire "
+                   "image of the remaining payloads.",
         level_note="Trusted: snow (AEAD: tamper/replay => error is snow's property; write_message/read_message length contract), tokio "
                    "AsyncRead/AsyncWrite poll contracts, pin-projection (Pin::new on Unpin is the identity; self.project() is modelled by a "
                    "struct of &mut fields), std slice operations behind 7 one-line R-std wrappers whose bodies are the replaced std "
                    "expressions; A3 axioms seal_props (ciphertext = plaintext + 16 bytes; a paired reader state opens a sealed payload to "
-                   "that payload) and A1 le16_props (to_le_bytes injective). Not decided: the induction over a whole stream of frames (the "
-                   "one-frame lemma is its step), the evolution of the cipher state between frames, AEAD integrity (tampering => error).",
+                   "that payload) and A1 le16_props (to_le_bytes injective). Not decided: the evolution of the cipher state between frames "
+                   "(the stream lemma assumes reader state i paired with writer state i), AEAD integrity (tampering => error).",
         technique="contract-based deductive verification (Verus on extracted real functions; ghost wire sequence on the transport stub)",
         design_ref="DESIGN.md §5 C13",
         assumptions=[],
@@ -302,7 +304,7 @@ PROPS = {
         assumptions=[],
     ),
     "C15": dict(
-        units=["limiter"],
+        units=["limiter", "streams"],
         level="proof",
         level_text="Limiter state machine. Deductive proof (Verus) over the real text of State::advance, duration_or_max, usize_or_max, "
                    "Limiter::acquire, Permit::drop and of the two closures that write the limiter state (lifted mechanically): the invariant "
@@ -315,6 +317,11 @@ PROPS = {
                    "`step` (the potential free-permits minus limiter-clock drops by at least the permits it grants; only acquire's commit "
                    "grants), and lemma_window proves by induction over ANY sequence of steps that the permits granted are <= free permits at "
                    "the start + ticks the clock advanced <= burst + ticks elapsed, i.e. b + T/r (+1 for partial periods at the window's ends).",
+        level_text_extra="RPC composition (unit streams): the per-stream task ReusableStream::run (its scope body lifted mechanically) sends an "
+                   "OPEN frame / hands a stream to a requester on EVERY path only after its own acquire(1) on this stream queue's limiter in "
+                   "the same iteration (ghost count of paid-for opens, client and server side alike); mux::StreamQueue::new builds the limiter "
+                   "with exactly the rate it is given, rpc::Client::new and rpc::Service::add_server build their queue with exactly the "
+                   "configured rate and R::INFLIGHT as stream limit and register that very queue under the RPC's capability.",
         level_note="Not decided: the relation between the limiter clock (ticks = floor((now - start) / refresh), or the tick an acquire "
                    "slept until) and wall-clock time is read off the code, not proved; arrival-order service (tokio's fair mutex), and the per-connection RPC consequence (composition through the mux, "
                    "concurrent). Rely condition: between the wait and the final section only Permit::drop runs (acquires are serialised by "
@@ -324,8 +331,9 @@ PROPS = {
         assumptions=[],
     ),
     "C10": dict(
-        units=["mux", "noise", "qc", "replica", "conv"],
+        units=["mux", "noise", "qc", "replica", "conv", "leader"],
         kani=["std_conv"],
+        kani_quick=True,
         level="proof",
         level_text="For an EXPLICIT LIST of entry points, panic-freedom for every input as Verus obligations on the real text (arithmetic "
                    "overflow, division, index / slice range, unwrap / expect, unreachable!, assert!/debug_assert! as proof obligations), with no "
@@ -334,7 +342,8 @@ PROPS = {
                    "allocation; prost decode itself external), noise Stream::handshake, poll_read_frame, poll_read_payload, "
                    "poll_read and the write path, bytes::Buffer; CommitQC/TimeoutQC/ReplicaTimeout/LeaderProposal/ReplicaNewView/FinalBlock "
                    "verify + add (incl. the assert_eq! in Signers::weight), get_implied_block/high_vote/high_qc under verify()'s postcondition; "
-                   "ViewNumber::next, View::next_view, ProposalJustification::view, ChonkyMsg/ConsensusMsg::view_number, the selection function "
+                   "ViewNumber::next, View::next_view, ProposalJustification::view, ChonkyMsg/ConsensusMsg::view_number, Schedule::view_leader / "
+                   "leader_weighted_eligibility (called with a message's view before its justification is verified: total for every view, frequency and weight), the selection function "
                    "and the four replica handlers before and after verification. Allocation in process_inbound_frames happens only after "
                    "the size permits are held; GenesisRaw::read / build: what decodes has the protocol version build() handles, so Genesis::read "
                    "(which re-encodes to compute the hash) never reaches unreachable!(). Kani (complete, loop-free) on the real protobuf crate: "
